@@ -131,6 +131,9 @@ def run(ctx):
             if x.get('kind') == 'CXXStaticCastExpr':
                 chain.add(id(x))
                 bad = obs.narrow.get(id(x))
+                for y in walk(x):
+                    if bad is None and y.get('isPartOfExplicitCast') and id(y) in obs.narrow:
+                        bad = obs.narrow[id(y)]
                 ctx.check(bad is None, 'C04-range', 'static_cast<%s> in %s preserves its value' % (qtype(x), name), x,
                           'the narrowing cast can change the value: operand %s does not fit %s' % (
                               bad[1] if bad else '', qtype(x)), construct='cast:%s:%s' % (name, qtype(x)),
